@@ -67,8 +67,8 @@ type Rec struct {
 	S string
 }
 
-var dKeys = []string{"testdb:json/a", "testdb:json/b", "testdb:struct/c", "testdb:raw/d", "testdb:missing/e", "testdb:json/new1", "testdb:json/new2", "nodb:x", "testdb:", "bad key"}
-var dQueries = []string{"query testdb:", "query testdb:json/", "query testdb:json/ where S sameas alpha", "query testdb:raw", "query nodb:", "query testdb: where (", "nonsense", "query testdb:json/ where N exists", ""}
+var dKeys = []string{"testdb:json/a", "testdb:json/b", "testdb:struct/c", "testdb:raw/d", "testdb:missing/e", "testdb:json/new1", "testdb:json/new2", "nodb:x", "testdb:", "bad key", "lazydb:json/new1", "lazydb:json/new2"}
+var dQueries = []string{"query testdb:", "query testdb:json/", "query testdb:json/ where S sameas alpha", "query testdb:raw", "query nodb:", "query testdb: where (", "nonsense", "query testdb:json/ where N exists", "", "query lazydb:"}
 var dBodies = []string{`J{"N":"w1","S":"alpha"}`, `J{"N":"w2","S":"beta","X":{"y":[1,2,3]}}`, `J{}`, `J[1,2]`, `J"str"`, `Jnot json`, `J`, ``, `C` + "\xa1aNbw3", `{"S":"inserted"}`, `{"S":{"deep":1}}`, `[]`, `{"":1}`, `5`, `J{"N":"w|4","S":"al|pha|"}`, `J{"N":"|","S":"alpha"}`}
 var dGaps = []time.Duration{0, time.Millisecond, 5 * time.Millisecond, 50 * time.Millisecond}
 
@@ -93,7 +93,7 @@ func genC13(rng *rand.Rand, tier string) *DBPlan {
 				}
 				m.Twice = rng.IntN(3) == 0
 			case "raw":
-				raws := []string{"", "|", "||", "x|", "x|get", "x|get|", "x|unknown|y", "a|b|c|d|e", "\x00\xff|get|\x00", "x|create|k", "x|insert|", strings.Repeat("|", 40), "x|cancel", "|cancel", "x|qsub|query testdb: where", "x|update|testdb:json/a|"}
+				raws := []string{"", "|", "||", "x|", "x|get", "x|get|", "x|unknown|y", "a|b|c|d|e", "\x00\xff|get|\x00", "x|create|k", "x|insert|", strings.Repeat("|", 40), "x|cancel", "|cancel", "x|qsub|query testdb: where", "x|update|testdb:json/a|", "y|sub", "z|delete", "y|cancelled"}
 				m.Raw = raws[rng.IntN(len(raws))]
 			}
 			msgs = append(msgs, m)
@@ -139,6 +139,25 @@ func genC13(rng *rand.Rand, tier string) *DBPlan {
 		p.Stall = 150 + rng.IntN(100)
 		p.Conns = [][]DMsg{{{Kind: "sub", Query: 1}}, {{Kind: "get", Key: 5, Gap: 3}}}
 		p.Writes = nil
+		return p
+	case 15, 16, 17:
+		// first use of a database by several connections at the same moment: one writes and reads back, the others
+		// subscribe, read or write as well
+		k := 10 + rng.IntN(2)
+		b0 := rng.IntN(2)
+		p.Conns = [][]DMsg{{{Kind: "create", Key: k, Body: b0}, {Kind: "get", Key: k, Gap: 2}, {Kind: "get", Key: k, Gap: 3}}}
+		for c, nc := 0, 1+rng.IntN(2); c < nc; c++ {
+			switch rng.IntN(3) {
+			case 0:
+				p.Conns = append(p.Conns, []DMsg{{Kind: "qsub", Query: 9}, {Kind: "get", Key: k, Gap: 3}})
+			case 1:
+				p.Conns = append(p.Conns, []DMsg{{Kind: "get", Key: 10 + rng.IntN(2)}, {Kind: "get", Key: k, Gap: 3}})
+			default:
+				p.Conns = append(p.Conns, []DMsg{{Kind: "create", Key: 21 - k, Body: rng.IntN(2)}, {Kind: "get", Key: 21 - k, Gap: 2}, {Kind: "get", Key: k, Gap: 3}})
+			}
+		}
+		p.Writes = nil
+		p.Veto = false
 		return p
 	case 11, 12, 13, 14:
 		// a qsub (sometimes a sub) that starts at the same moment as a burst of writes and deletes to matching keys:
@@ -230,6 +249,12 @@ func execC13(p *DBPlan, rc *simkit.RunCtx) {
 		return
 	}
 	if _, err := database.Register(&database.Database{Name: "testdb", Description: "sim", StorageType: p.Backend}); err != nil {
+		rc.Fail("C13.harness", "register failed", err.Error())
+		return
+	}
+	// a second database that nothing touches before the connections do: its first use may come from several
+	// requests at once
+	if _, err := database.Register(&database.Database{Name: "lazydb", Description: "sim, opened on first use", StorageType: p.Backend}); err != nil {
 		rc.Fail("C13.harness", "register failed", err.Error())
 		return
 	}
@@ -498,6 +523,31 @@ func checkC13(p *DBPlan, rc *simkit.RunCtx) {
 			}
 			byOp[r.Op] = append(byOp[r.Op], r)
 		}
+		// a malformed message yields an error reply: for every ID that certainly malformed raw messages carried, at
+		// least as many error replies as there were such messages (other raw messages with that ID only add to them)
+		if ci < len(p.Conns) {
+			// (the error reply carries the message's ID where the package made one out, and no ID otherwise)
+			ids, want, got := map[string]bool{"": true}, 0, 0
+			for _, m := range p.Conns[ci] {
+				if m.Kind == "raw" && certainlyMalformed[m.Raw] {
+					id, _, _ := strings.Cut(m.Raw, "|")
+					ids[id] = true
+					want++
+				}
+			}
+			for _, r := range cs.replies {
+				if r.Type == "error" && ids[r.Op] {
+					got++
+				}
+			}
+			if got < want {
+				rc.Fail("C13.reply-sequence", "replies to a malformed message do not follow the protocol: expected an error reply", fmt.Sprintf("conn %d: %d malformed messages, %d error replies with their IDs or without ID", ci, want, got))
+				return
+			}
+			if want > 0 {
+				rc.Probe("malformed-message-answered")
+			}
+		}
 		for _, op := range cs.order {
 			req := cs.reqs[op]
 			reps := byOp[op]
@@ -680,6 +730,10 @@ func isCancelTarget(cs *connState, op string) bool {
 	return false
 }
 
+// certainlyMalformed: raw messages that are no request of the protocol whatever the state of the database
+var certainlyMalformed = map[string]bool{"": true, "|": true, "||": true, "x|": true, "x|get": true, "x|unknown|y": true, "a|b|c|d|e": true,
+	"x|create|k": true, "x|insert|": true, strings.Repeat("|", 40): true, "y|sub": true, "z|delete": true, "y|cancelled": true}
+
 func rawID(cs *connState, msgs []DMsg, op string) bool {
 	for _, m := range msgs {
 		if m.Kind == "raw" && strings.HasPrefix(m.Raw, op+"|") {
@@ -720,7 +774,7 @@ func checkReadBack(ci int, cs *connState, p *DBPlan, rc *simkit.RunCtx) {
 		if w.Kind != "create" && w.Kind != "update" {
 			continue
 		}
-		if !strings.HasPrefix(w.Key, "testdb:json/new") || !strings.HasPrefix(w.Body, "J{") {
+		if !(strings.HasPrefix(w.Key, "testdb:json/new") || strings.HasPrefix(w.Key, "lazydb:json/new")) || !strings.HasPrefix(w.Body, "J{") {
 			continue
 		}
 		// success?
